@@ -15,12 +15,12 @@ t=$(cargo test --workspace --no-fail-fast --offline 2>&1 | grep -E "^test result
 cp MUTATION_$x/demo.rs tests/demo_$lx.rs
 with=""; without=""
 for f in "${feats[@]}"; do
-  r=$(cargo test --offline --features $f --test demo_$lx 2>&1 | sed 's/\x1b\[[0-9;]*m//g' | grep -E "^test result|^error: could not compile|^error\[E[0-9]+\]" | head -2 | tr '\n' ' ')
+  r=$(cargo test --offline --features $f --test demo_$lx 2>&1 | sed 's/\x1b\[[0-9;]*m//g' | grep -E "^test result|^error: could not compile|^error: test failed|^error\[E[0-9]+\]" | head -2 | tr '\n' ' ')
   with="$with [$f: $r]"
 done
 git checkout -q -- .
 for f in "${feats[@]}"; do
-  r=$(cargo test --offline --features $f --test demo_$lx 2>&1 | sed 's/\x1b\[[0-9;]*m//g' | grep -E "^test result|^error: could not compile|^error\[E[0-9]+\]" | head -2 | tr '\n' ' ')
+  r=$(cargo test --offline --features $f --test demo_$lx 2>&1 | sed 's/\x1b\[[0-9;]*m//g' | grep -E "^test result|^error: could not compile|^error: test failed|^error\[E[0-9]+\]" | head -2 | tr '\n' ' ')
   without="$without [$f: $r]"
 done
 rm -f tests/demo_$lx.rs
